@@ -418,7 +418,21 @@ func (sdb *DbSqlite) initJwtKey() error {
 	return nil
 }
 
+// checkPointValues returns an error if any of the points cannot be stored
+func checkPointValues(points data.Points) error {
+	for _, p := range points {
+		if math.IsNaN(p.Value) {
+			return fmt.Errorf("Error: point %v:%v value is NaN", p.Type, p.Key)
+		}
+	}
+	return nil
+}
+
 func (sdb *DbSqlite) nodePoints(id string, points data.Points) error {
+	if err := checkPointValues(points); err != nil {
+		return err
+	}
+
 	points.Collapse()
 
 	sdb.writeLock.Lock()
@@ -559,6 +573,10 @@ NextPin:
 }
 
 func (sdb *DbSqlite) edgePoints(nodeID, parentID string, points data.Points) error {
+	if err := checkPointValues(points); err != nil {
+		return err
+	}
+
 	points.Collapse()
 
 	if nodeID == parentID {
